@@ -16,7 +16,11 @@ RULE = ("dt-*: C01-style stratified programs (facts, probabilistic facts, ADs, p
         "some probabilistic facts become decision facts '?::d.', some ADs / probabilistic rules become decision rules "
         "and decision ADs ('?::h :- body.', '?::a; ?::b.'), 0-2 fresh decision facts are used (also negated) in new or "
         "existing rule bodies, and 1-4 utility/2 facts on ground atoms and negated atoms (values -10..10, also 0 and "
-        "both signs of one atom) are added; no queries, no evidence. Oracle: the reference possible-world semantics "
+        "both signs of one atom) are added; no queries, no evidence. A third of the dt-exhaustive and two thirds of the "
+        "dt-local programs are instead small problems with interacting decisions: 2-3 decision facts, 0-2 chance "
+        "facts, 2-4 derived atoms whose bodies combine two or three decisions with mixed polarity (and possibly a "
+        "chance fact), utilities on the derived atoms, costs or small rewards on single decisions, all statements "
+        "and body literals shuffled (so both declaration / grounding orders occur). Oracle: the reference possible-world semantics "
         "evaluates the program once with every decision as a uniform choice; EU(strategy) = sum utility * P(atom | "
         "strategy) exactly, for every strategy (decision fact: true/false; single-head decision rule instance: "
         "taken/not; multi-head decision AD instance: exactly one head, which is what DT-ProbLog's own constraint "
@@ -630,7 +634,18 @@ def check_map(case):
 # ------------------------------------------------------------------------------------------------ wiring
 
 def _dt_strategy():
-    return gen.dt_programs().map(lambda p: {"prog": p})
+    from hypothesis import strategies as st
+
+    # a third of the programs are small problems with interacting decisions
+    return st.one_of(gen.dt_programs(), gen.dt_programs(), gen.dt_interacting_programs()).map(lambda p: {"prog": p})
+
+
+def _dt_local_strategy():
+    from hypothesis import strategies as st
+
+    # local search: two thirds of the programs have interacting decisions (a flip that only pays off after another)
+    return st.one_of(gen.dt_programs(), gen.dt_interacting_programs(), gen.dt_interacting_programs()).map(
+        lambda p: {"prog": p})
 
 
 def _map_strategy():
@@ -741,8 +756,8 @@ KNOWN_CLASSES = {
 SUBCHECKS = [
     SubCheck("dt-exhaustive", make_dt_check("exhaustive"), strategy=_dt_strategy,
              budget={"quick": 400, "thorough": 8000}, timeout={"quick": 15, "thorough": 40}, render=render_dt),
-    SubCheck("dt-local", make_dt_check("local"), strategy=_dt_strategy,
-             budget={"quick": 250, "thorough": 5000}, timeout={"quick": 15, "thorough": 40}, render=render_dt),
+    SubCheck("dt-local", make_dt_check("local"), strategy=_dt_local_strategy,
+             budget={"quick": 400, "thorough": 5000}, timeout={"quick": 15, "thorough": 40}, render=render_dt),
     SubCheck("map", check_map, strategy=_map_strategy,
              budget={"quick": 300, "thorough": 6000}, timeout={"quick": 15, "thorough": 40}, render=render_map),
 ]
